@@ -5,7 +5,8 @@ from .. import e2e, progen
 from ..e2e import HEADER, CASE_TYPE, CHECK, MODEL_VIEW, SHARD, CASE_TIMEOUT, observe, coq_term, nontrivial_key, tags  # noqa: F401
 
 ID = "C14"
-THEOREMS = ["C14_status", "C14_string_api", "C14_cli", "C14_success_writes", "C14_failure_classes"]
+THEOREMS = ["C14_status", "C14_string_api", "C14_cli", "C14_success_writes", "C14_failure_classes",
+            "C14_oracle_sound", "C14_oracle_domain"]
 RULE = ("fault enumeration: valid generated programs x a definite error of every class (bad character, unterminated "
         "string/comment, unknown keyword, syntax error, undefined symbol in operand / data / *=, undefined macro, too few "
         "arguments, unsupported mode, unsupported width, out-of-range branch, unmapped *=, running off the last mapped bank, missing .include/.incbin/.table/"
@@ -15,7 +16,8 @@ RULE = ("fault enumeration: valid generated programs x a definite error of every
         "non-trivial: every case (each is one program x entry points)")
 PROVED_NOTE = ("proved on the front-end model (Model/Assemble.v): status 0 / None / exit 0 and the success message are given "
                "exactly when the assembly succeeded and the writer accepted every block; every failure class maps to a "
-               "non-zero status or an exception. The weight is the tie: model statuses are compared with the real return "
+               "non-zero status or an exception; the run-time oracle c14_ok is sound on observations that agree with the model "
+               "(no false alarm) whenever the writer accepts the blocks, and objects exactly when it refuses them (domain made explicit). The weight is the tie: model statuses are compared with the real return "
                "values, exit codes and log output (correspondence), and the oracle checks the implementation directly. "
                "Process exit and logging are runtime behaviour: partial in that sense.")
 MANIFEST = {
